@@ -344,10 +344,11 @@ def run_corruptions(ctx, exe, model):
     if trunc:
         _, dec2, _ = vlib.run_lines_sharded(model, ["DEC | " + l.split(":")[-1] + "00" for l, _ in trunc])     # value string missing at the very end
         _, dec3, _ = vlib.run_lines_sharded(model, ["DECL | " + l.split(":")[-1] for l, _ in trunc])           # table size update between fields
+        _, dec4, _ = vlib.run_lines_sharded(model, ["DECL | " + l.split(":")[-1] + "00" for l, _ in trunc])    # both at once
         isok = lambda d: d not in ("ERR", "DEAD", "?", "")
-        kA = [(l, o) for (l, o), d2, d3 in zip(trunc, dec2, dec3) if isok(d2)]
-        kB = [(l, o) for (l, o), d2, d3 in zip(trunc, dec2, dec3) if not isok(d2) and isok(d3)]
-        others = [(l, o) for (l, o), d2, d3 in zip(trunc, dec2, dec3) if not isok(d2) and not isok(d3)]
+        kA = [(l, o) for (l, o), d2, d3, d4 in zip(trunc, dec2, dec3, dec4) if isok(d2)]
+        kB = [(l, o) for (l, o), d2, d3, d4 in zip(trunc, dec2, dec3, dec4) if not isok(d2) and (isok(d3) or isok(d4))]
+        others = [(l, o) for (l, o), d2, d3, d4 in zip(trunc, dec2, dec3, dec4) if not isok(d2) and not isok(d3) and not isok(d4)]
         if kA:
             l0, o0 = min(kA, key=lambda x: len(x[0]))
             ctx.violate("hpack-corrupt:truncated-value-accepted", "C07 fails on the implementation (corrupted block): a header block that ends right after a field name "
